@@ -94,8 +94,20 @@ func c08Run(job *Job, p c08Params, prefix []int) (out schedOut) {
 			}
 		}
 		if p.Flusher {
-			// put the flusher's 1 s period inside the window: advance to just before it fires
-			vsched.Sleep(int64(stdtime.Second) - vsched.Clock%int64(stdtime.Second) - 1)
+			// release the connections at the very instant the flusher's next due
+			// tick wakes, so that it is enabled together with them (virtual time
+			// does not advance while anything is runnable)
+			for {
+				t := vsched.WakeTimeOf("L", "backgroundSyncAOF")
+				if t < 0 {
+					panic("flusher not sleeping")
+				}
+				vsched.SleepUntil(t)
+				if vsched.Clock >= int64(1100*stdtime.Millisecond) {
+					break
+				}
+				vsched.Sleep(1)
+			}
 		}
 		for i, c := range p.Conns {
 			var seg []byte
